@@ -175,6 +175,43 @@ func (d *Discharger) Discharge(vc *VC) {
 
 func (d *Discharger) standalone(vc *VC, ob *Oblig, base string) {
 	if ob.Cover {
+		// first the full query (all axioms) on the two solvers the incremental run did not use: a
+		// refutation there is a vacuity failure (the path condition contradicts the quantified axioms)
+		full := fmt.Sprintf("%s.%d.smt2", base, ob.Index)
+		tl := 3
+		if d.TimeoutS < tl {
+			tl = d.TimeoutS
+		}
+		os.WriteFile(full, []byte(vc.sc.Standalone(ob.Index, tl*1000)), 0o644)
+		chf := make(chan solveResult, 2)
+		for _, s := range solvers[1:] {
+			go func(s solverSpec) {
+				d.sem <- struct{}{}
+				defer func() { <-d.sem }()
+				r := runSolver(context.Background(), s, full, tl)
+				d.note(r)
+				chf <- r
+			}(s)
+		}
+		for range solvers[1:] {
+			r := <-chf
+			if r.result == "unsat" && ob.Result != "sat" {
+				ob.Result = "unsat"
+				ob.Solver = r.solver + "(all axioms)"
+				ob.Seconds = r.seconds
+				ob.File = full
+			}
+			if r.result == "sat" && ob.Result != "unsat" {
+				ob.Result = "sat"
+				ob.Solver = r.solver
+				ob.Seconds = r.seconds
+				ob.File = full
+				d.credit(r.solver)
+			}
+		}
+		if ob.Result == "unsat" || ob.Result == "sat" {
+			return
+		}
 		// reachability canary: a model of the quantifier-free part is what solvers can produce
 		qf := fmt.Sprintf("%s.%d.qf.smt2", base, ob.Index)
 		os.WriteFile(qf, []byte(vc.sc.StandaloneQF(ob.Index)), 0o644)
